@@ -1,2 +1,179 @@
-import LeptosModel.Model.RView
-/-! # C04 — placeholder while the proofs are written -/
+import LeptosModel.Proofs.RViewMain
+import LeptosModel.Proofs.RViewShow
+/-!
+# C04 — a mounted reactive view always settles to the render of current state
+
+Model: `LeptosModel/Model/RView.lean` (reactive views = the reactive graph of `Model/Reactive.lean` +
+a retained state tree that carries its DOM nodes).  Lemmas: `Proofs/RView*.lean`.
+-/
+namespace Leptos.RView
+open Leptos.Reactive
+
+/-! ## `C04_settles` -/
+
+/-- **full statement** (kept visible): for every well-formed program of the modelled grammar, every
+history of writes / polls / disposal, at every idle point the DOM below the mount root is the fresh
+render for the current values. -/
+def C04_settles_full : Prop :=
+  ∀ (p : Program) (ops : List Op), p.wf = true →
+    (run p ops).disposed = false → ready (run p ops) = [] →
+    (run p ops).dom = render (run p ops).env p.view
+
+/-- **dynamic leaves over signals** — unconditional: for every program whose definitions are signals
+and whose view is made of static structure (text, `()`, elements, tuples) and dynamic leaves (`move ||`
+text, reactive attribute, class and style), all reading signals (through arbitrary expressions with
+`ite`, i.e. dynamic dependencies), for EVERY history of signal writes, executor polls in any order,
+`idle` runs and disposal, at every idle point the serialised DOM of the mount root equals the
+from-scratch render of the view for the current signal values. -/
+theorem C04_settles (p : Program) (ops : List Op) (hw : p.wf = true) (hs : allSigs p.defs = true)
+    (hl : p.view.leaves = true) (hd : (run p ops).disposed = false) (hidle : ready (run p ops) = []) :
+    (run p ops).dom = render (run p ops).env p.view := by
+  rcases Inv1.run hw hs hl ops with h | h
+  · rw [h.1] at hd; cases hd
+  · simp only [Program.wf, Bool.and_eq_true] at hw
+    exact h.2.settled hw.2 hidle
+
+/-- after the mount handle is dropped the root stays empty, whatever happens afterwards
+(every program, every view of the grammar) -/
+theorem C04_disposed_stays_empty (p : Program) (ops ops' : List Op) :
+    (run p (ops ++ [.dispose] ++ ops')).dom = [] := by
+  have h1 : ∀ (l : List Op) (s : St), s.disposed = true ∧ s.root = none →
+      (l.foldl step s).disposed = true ∧ (l.foldl step s).root = none := by
+    intro l
+    induction l with
+    | nil => intro s h; exact h
+    | cons op rest ih => intro s h; exact ih _ (step_disposed s op h)
+  have : (run p (ops ++ [.dispose] ++ ops')).root = none := by
+    simp only [run, List.foldl_append, List.foldl_cons, List.foldl_nil]
+    exact (h1 ops' _ (dispose_disposed _)).2
+  unfold St.dom
+  rw [this]
+
+/-! ## `C04_untouched_nodes` -/
+
+/-- **parts whose inputs did not change keep their nodes** (dynamic leaves over signals): take any
+idle point of any history, then any further history `ops'` of writes, polls in any order and `idle`
+runs.  Every DOM node below (and including) the mount root that existed at the idle point and none of
+whose governing dynamic parts (`g`: its own reactive attributes / text expression, enclosing and
+directly contained structural parts) had read, at its last run, a signal that `ops'` writes, is still
+there afterwards — the same node id with the same mutation counter (`St.nodes` lists
+`(⟨id, mutation count⟩, governing effects)`).  A `set` counts as a change of its signal whether or not
+the value differs (`RwSignal::set` always notifies). -/
+theorem C04_untouched_nodes (p : Program) (ops ops' : List Op) (hw : p.wf = true)
+    (hs : allSigs p.defs = true) (hl : p.view.leaves = true)
+    (hd : (run p ops).disposed = false) (hidle : ready (run p ops) = []) (hnd : Op.dispose ∉ ops') :
+    ∀ n g, (n, g) ∈ (run p ops).nodes →
+      (∀ e ∈ g, ∀ id ∈ writes ops', id ∉ ((run p ops).rs.get e).sources) →
+      (n, g) ∈ (run p (ops ++ ops')).nodes := by
+  intro n g hm hq
+  have h0 : Inv0 p.defs.length p.view (run p ops) := by
+    rcases Inv1.run hw hs hl ops with h | h
+    · rw [h.1] at hd; cases hd
+    · exact h.2
+  obtain ⟨t, hroot, hgood, _⟩ := h0.tree
+  have hsub : ∀ e ∈ g, e ∈ effsOf t := by
+    intro e he
+    simp only [St.nodes, hroot, List.mem_cons] at hm
+    rcases hm with hm | hm
+    · rw [(Prod.mk.inj hm).2] at he; exact structEffs_sub t e he
+    · exact nodesOf_sub t n g hm e he
+  have hquiet : ∀ e ∈ g, quietEff p.defs.length (writes ops') (run p ops) e := by
+    intro e he
+    obtain ⟨x, cur, hok⟩ := Good.effOK p.view t hgood e (hsub e he)
+    refine ⟨hok.ke, hq e he, ?_⟩
+    rcases hok.ok with hp | hc
+    · exfalso
+      have : e ∈ ready (run p ops) := by
+        unfold ready
+        refine List.mem_filter.2 ⟨hok.task, ?_⟩
+        simp [hp.2.2, hok.done]
+      rw [hidle] at this; simp at this
+    · exact hc.1
+  have hrun : run p (ops ++ ops') = ops'.foldl step (run p ops) := by
+    simp only [run, List.foldl_append]
+  rw [hrun]
+  exact (Quiet.steps hl ops' _ (Quiet.start h0) (fun _ h => h) hnd).keep n g hm hquiet
+
+/-- a write never touches the DOM by itself (every program, every view): effects run when polled -/
+theorem C04_set_touches_nothing (st : St) (id : Nat) (v : Int) :
+    (setSig st id v).root = st.root ∧ (setSig st id v).rootN = st.rootN := ⟨rfl, rfl⟩
+
+/-! ## `C04_show_no_rerender_same_branch` -/
+
+/-- **`Show` does not re-render when the truth value of its condition is unchanged.**  In ANY state in
+which a `Show`'s memo `m` (over the boolean of a condition `c` reading signals) has been marked dirty
+by a write and its render effect `e` has been check-notified (`ShowPre`: this is what
+`RwSignal::set` on a signal read by `c` produces), if the condition's truth value for the current
+signal values is the one the memo holds, then polling the effect's task recomputes the memo, finds it
+unchanged, and does NOT run the effect: the whole mounted tree (every node id, every mutation
+counter), the root, the zombies, the task list and the program are untouched; the memo is clean and
+the effect is neither notified nor woken any more. -/
+theorem C04_show_no_rerender_same_branch {K : Nat} {st : St} {e m : Nat} {c : Expr}
+    (h : ShowPre K st e m c) :
+    (pollTask st e).root = st.root ∧ (pollTask st e).rootN = st.rootN ∧
+    (pollTask st e).nodes = st.nodes ∧
+    (pollTask st e).zombies = st.zombies ∧ (pollTask st e).tasks = st.tasks ∧
+    (pollTask st e).prog = st.prog ∧ (pollTask st e).next = st.next ∧
+    ((pollTask st e).rs.get m).st = .clean ∧ ((pollTask st e).rs.get m).val = (st.rs.get m).val ∧
+    ((pollTask st e).rs.get e).chan = false ∧ ((pollTask st e).rs.get e).woken = false := by
+  obtain ⟨rs', hp, h1, h2, h3, _, h5⟩ := show_poll_same h
+  rw [hp]
+  exact ⟨rfl, rfl, rfl, rfl, rfl, rfl, rfl, h1, h2, h3, h5⟩
+
+/-- the program of the `Show` examples: `<Show when=move || s0 != 0 fallback="no">{move || s1}</Show>` -/
+def showProg : Program :=
+  { defs := [.sig 1, .sig 5], view := .show (.rd true 0) (.dynText (.rd true 1)) (.text "no") }
+
+/-- the same with a plain `move || if s0 != 0 { Either::Left(..) } else { Either::Right(..) }` -/
+def eitherProg : Program :=
+  { defs := [.sig 1, .sig 5], view := .either (.rd true 0) (.dynText (.rd true 1)) (.text "no") }
+
+/-- non-vacuity: after `set s0 2` (truth value unchanged) the reachable state satisfies `ShowPre` for
+the `Show`'s effect 3 and memo 2 … -/
+example : ShowPre 2 (run showProg [.idle, .set 0 2]) 3 2 (.rd true 0) :=
+  ⟨by decide +kernel, by decide +kernel, by decide +kernel, by decide +kernel, by decide +kernel,
+   by decide +kernel, by decide +kernel, by decide +kernel, by decide +kernel, by decide +kernel,
+   by decide +kernel, by decide +kernel, by decide +kernel, by decide +kernel, by decide +kernel,
+   by decide +kernel, by decide +kernel⟩
+
+/-- … the branch keeps its nodes (ids and mutation counters) through the whole round, while the
+plain `either` over the same condition re-renders: the nested dynamic text is a NEW node (id 2
+instead of 1) and the root's child list was mutated twice -/
+example :
+    (run showProg [.idle, .set 0 2, .idle]).nodes = (run showProg [.idle]).nodes ∧
+    (run showProg [.idle]).nodes = [(⟨0, 1⟩, [3]), (⟨1, 0⟩, [3, 4])] ∧
+    (run eitherProg [.idle]).nodes = [(⟨0, 1⟩, [2]), (⟨1, 0⟩, [2, 3])] ∧
+    (run eitherProg [.idle, .set 0 2, .idle]).nodes = [(⟨0, 3⟩, [2]), (⟨2, 0⟩, [2, 4])] ∧
+    (run eitherProg [.idle, .set 0 2, .idle]).dom = (run eitherProg [.idle]).dom := by decide +kernel
+
+/-! non-vacuity: a program with a reactive attribute, class, style and two dynamic texts with a
+dynamic dependency; a history with partial polling; the hypotheses hold, the DOM changes -/
+
+def exProg : Program :=
+  { defs := [.sig 0, .sig 1],
+    view := .elem "div" [.dyn "title" (.rd true 0), .cls "on" (.rd true 1), .sty "width" (.add (.rd true 0) (.rd true 1))]
+      (.seq (.dynText (.ite (.rd true 1) (.rd true 0) (.lit 7))) (.seq (.text "x") (.dynText (.rd true 1)))) }
+
+def exOps : List Op := [.set 0 5, .poll 3, .set 1 0, .poll 1, .idle]
+
+example : exProg.wf = true ∧ allSigs exProg.defs = true ∧ exProg.view.leaves = true ∧
+    (run exProg exOps).disposed = false ∧ ready (run exProg exOps) = [] ∧
+    ready (run exProg (exOps.take 4)) ≠ [] ∧
+    (run exProg exOps).dom =
+      [.open "div" [.plain "title" (.int 5), .cls "on" false, .sty "width" (.px 5)],
+       .text (.int 7), .text (.lit "x"), .text (.int 0), .close] ∧
+    (run exProg exOps).dom ≠ (run exProg []).dom := by decide +kernel
+
+/-- non-vacuity of `C04_untouched_nodes`: after `idle`, writing signal 0 and running to idle leaves the
+text node of `dynText R1` (governed by effect 6, whose sources are `[1]`) in place, while the text node
+of the first dynamic text is mutated -/
+example :
+    ready (run exProg [.idle]) = [] ∧ ((run exProg [.idle]).rs.get 6).sources = [1] ∧
+    ((run exProg [.idle]).rs.get 5).sources = [1, 0] ∧
+    writes [Op.set 0 5, Op.idle] = [0] ∧
+    (run exProg [.idle]).nodes =
+      [(⟨0, 1⟩, []), (⟨1, 6⟩, [2, 3, 4]), (⟨2, 0⟩, [5]), (⟨3, 0⟩, []), (⟨4, 0⟩, [6])] ∧
+    (run exProg ([.idle] ++ [.set 0 5, .idle])).nodes =
+      [(⟨0, 1⟩, []), (⟨1, 8⟩, [2, 3, 4]), (⟨2, 1⟩, [5]), (⟨3, 0⟩, []), (⟨4, 0⟩, [6])] := by decide +kernel
+
+end Leptos.RView
